@@ -284,6 +284,75 @@ func publishedBeforeComplete(c *core.Ctx) {
 					lf = append(lf, st.Field(i).Name())
 				}
 				sort.Strings(lf)
+				// the error path: an object that cannot be completed is taken out of the registry again
+				if res := fn.Signature.Results(); res.Len() > 0 && isErrorType(res.At(res.Len()-1).Type()) {
+					var regGlobal *ssa.Global
+					for _, o := range core.Origins(mu.Map) {
+						if u, ok := o.(*ssa.UnOp); ok {
+							if g, ok := u.X.(*ssa.Global); ok {
+								regGlobal = g
+							}
+						}
+					}
+					deletesFrom := func(f *ssa.Function) []ssa.Instruction {
+						var out []ssa.Instruction
+						for _, b3 := range f.Blocks {
+							for _, i3 := range b3.Instrs {
+								call, ok := i3.(*ssa.Call)
+								if !ok {
+									continue
+								}
+								if bi, ok := call.Call.Value.(*ssa.Builtin); ok && bi.Name() == "delete" && len(call.Call.Args) > 0 {
+									for _, o := range core.Origins(call.Call.Args[0]) {
+										if u, ok := o.(*ssa.UnOp); ok && u.X == ssa.Value(regGlobal) {
+											out = append(out, i3)
+										}
+									}
+								}
+							}
+						}
+						return out
+					}
+					deferred := false
+					for _, b3 := range fn.Blocks {
+						for _, i3 := range b3.Instrs {
+							if d, ok := i3.(*ssa.Defer); ok && instrDominates(in, i3) {
+								if mc, ok := d.Call.Value.(*ssa.MakeClosure); ok {
+									if len(deletesFrom(mc.Fn.(*ssa.Function))) > 0 {
+										deferred = true
+									}
+								}
+							}
+						}
+					}
+					badRet := ""
+					if !deferred {
+						dels := deletesFrom(fn)
+						for _, b3 := range fn.Blocks {
+							for _, i3 := range b3.Instrs {
+								ret, ok := i3.(*ssa.Return)
+								if !ok || !instrDominates(in, i3) {
+									continue
+								}
+								last := spilledResult(b3, ret.Results[len(ret.Results)-1])
+								if k, ok := last.(*ssa.Const); ok && k.IsNil() {
+									continue
+								}
+								covered := false
+								for _, d := range dels {
+									if instrDominates(d, i3) {
+										covered = true
+									}
+								}
+								if !covered {
+									badRet = p.Pos(ret.Pos())
+								}
+							}
+						}
+					}
+					c.Check(badRet == "", core.SSAName(fn)+"|unpublished-on-error|"+nt.Obj().Name(), p.Pos(in.Pos()),
+						fn.Name()+" takes the "+nt.Obj().Name()+" out of the registry again when it cannot complete it"+ifs(badRet != "", ": the error return at "+badRet+" leaves the half-built object registered, and the next request for that Go type gets it as if it were valid"))
+				}
 				msg := ""
 				if len(readers) > 0 {
 					msg = ": " + readers[0] + ifs(len(readers) > 1, sprintf(" (and %d more)", len(readers)-1)) + " — during construction of a cyclic type it sees (and may keep) the half-built state"
